@@ -414,8 +414,9 @@ def write_evidence(prop, tier, seed, agg, results, wall_s, n_new, known_hit, ski
             "logical_steps": int(agg["steps"]),
             "scheduler_decisions": chaos_stats,
             "fault_kinds_fired": faults,
+            "real_vs_stub": {k[len("seam_"):]: v for k, v in probes.items() if k.startswith("seam_")},
             "probes": {k: v for k, v in probes.items()
-                       if not k.startswith("fault_") and not k.startswith("chaos_")},
+                       if not k.startswith("fault_") and not k.startswith("chaos_") and not k.startswith("seam_")},
             "distinct_event_log_digests": len(agg["digests"]),
             "components": getattr(pm, "COMPONENTS", {}),
             "workers": workers,
